@@ -5,6 +5,7 @@ from ..engine.prov import const_value, strip_casts, walk, walk_deep, show
 from ..engine.dtable import canon
 from ..engine.fold import fold
 from ..engine import panics
+from ..engine.cfg import span_str
 from .c12 import mentions
 
 CONFIGS_QUICK = ["A"]
@@ -284,6 +285,26 @@ def run_one(ck, prog):
                 if st["k"] == "assign" and st["dst"].get("p") and st["dst"]["p"][-1]["k"] == "field" and st["dst"]["p"][-1].get("n") == "ind":
                     steps.append(c7.prov.rvalue(st["rv"], (b["id"], i)))
         ck.ob("C07.7", "index-advances-by-one", len(steps) == 1 and isinstance(strip_casts(steps[0]), tuple) and strip_casts(steps[0])[0] == "bin" and strip_casts(steps[0])[1] == "Add" and fold(strip_casts(steps[0])[3]) == 1, fn=an[0]["path"], detail=f"index updates: {[show(x) for x in steps]}")
+    # whichever method moves the cursor moves it relative to where it stands (an overridden nth/advance_by that sets it would hand out
+    # arguments that were already delivered, or skip from the front instead of from the cursor)
+    n_moves = 0
+    for p2, f2 in prog.fns.items():
+        if "tiny_std::env::Args" not in p2:
+            continue
+        cx = prog.ctx(f2)
+        for b in f2["blocks"]:
+            if b["id"] not in cx.cfg.live_blocks() or b.get("cleanup"):
+                continue
+            for i, st in enumerate(b["stmts"]):
+                if st["k"] == "assign" and st["dst"].get("p") and st["dst"]["p"][-1]["k"] == "field" and st["dst"]["p"][-1].get("n") == "ind":
+                    n_moves += 1
+                    e = strip_casts(cx.prov.rvalue(st["rv"], (b["id"], i)))
+                    while isinstance(e, tuple) and e and e[0] == "field" and isinstance(e[1], tuple) and e[1][0] == "bin" and e[1][1].endswith("WithOverflow"):
+                        e = e[1]
+                    rel = isinstance(e, tuple) and e[0] == "bin" and e[1] in ("Add", "AddWithOverflow") and any(mentions(x, cx.prov, lambda z: z[0] == "field" and z[2] == "ind") for x in (e[2], e[3]))
+                    rel = rel or (isinstance(e, tuple) and e[0] == "call" and (e[1] or "").endswith(("::saturating_add", "::wrapping_add", "::min")) and mentions(e, cx.prov, lambda z: z[0] == "field" and z[2] == "ind"))
+                    ck.ob("C07.7", f"cursor-moves-relative|{p2.split('::')[-1]}|{n_moves}", rel, fn=p2, site=span_str(st["sp"]), detail=f"the argument cursor is set to {show(e)[:100]}; it may only be advanced from its current position")
+    ck.floor("C07.7", "cursor updates", n_moves, 1)
     # the value of a variable starts right after the FIRST '=' following the matched name (values may contain '=')
     for nm in ("tiny_std::env::var", "tiny_std::env::var_unix"):
         fn = prog.fns.get(nm)
